@@ -11,7 +11,7 @@ props = ["C%02d" % i for i in range(1, 21)]
 restricted = False
 if args and args[0] == "-p":
     props = args[1].split(","); args = args[2:]; restricted = True
-names = args or sorted(os.listdir(V + "/seeded"))
+names = args or sorted(os.listdir(os.environ.get("MX_DIR", V + "/seeded")))
 root = tempfile.mkdtemp(prefix="mx_", dir="/tmp")
 wt = root + "/repo"; hz = root + "/harness"; work = root + "/work"
 os.makedirs(work)
@@ -23,7 +23,7 @@ env = dict(os.environ, CARGO_NET_OFFLINE="true", VERIF_KNOWN=V + "/known_finding
 drv = V + "/lean/.lake/build/bin/z80drv"
 try:
     for n in names:
-        d = V + "/seeded/" + n
+        d = os.environ.get("MX_DIR", V + "/seeded") + "/" + n
         if not os.path.exists(d + "/patch.diff"):
             continue
         if subprocess.run(["git", "-C", wt, "apply", d + "/patch.diff"]).returncode != 0:
